@@ -148,5 +148,17 @@ CHECKS["C16"] = dict(
          "builtins (functor/3, arg/3, =../2, length/2, succ/2, plus/3, atom_number/2, type tests) are not yet covered.",
     technique="TLA+ arithmetic semantics (Arith.tla) evaluated by TLC on recorded results of is/2 and comparisons")
 
+CHECKS["C25"] = dict(
+    category="translation_validation",
+    text="The ProbLog text written by the ground task (to_prolog, with and without cycle breaking) is re-parsed and "
+         "re-evaluated by the real system; its answers are judged against the exact probabilities TLC computes for the "
+         "ORIGINAL program (Semantics.tla) and compared with the direct run. The exported DIMACS is re-read and TLC checks "
+         "it has exactly the models of the internal CNF (JudgeDimacs.tla).",
+    design_ref="DESIGN.md §5 C25", note=SEM_NOTE + " --compact ('may remove some predicates') is not part of the property.",
+    technique="translation validation: exported artefacts re-evaluated and judged by TLC against the TLA+ semantics of the source")
+CHECKS["C26"] = _sem("Every query of a generated program becomes a deterministic wrapper rule calling subquery/2, and "
+                     "subquery/3 with the program's evidence as evidence list; the bound probability of every answer is "
+                     "judged against the exact (conditional) probability computed by TLC.", "DESIGN.md §5 C26")
+
 NOT_YET = "check not built yet in this round (planned in DESIGN.md §5); not claimed"
 NOT_APPLICABLE = {}
